@@ -283,6 +283,40 @@ int main(void) {
             free(in); free(d);
         } else if (!strcmp(op, "cbound")) {
             unsigned long long n = strtoull(strtok(NULL, " "), NULL, 10); size_t b = ZSTD_compressBound((size_t)n); if (ZSTD_isError(b)) printf("E\n"); else printf("%llu\n", (unsigned long long)b);
+        } else if (!strcmp(op, "cend")) {
+            /* cend <id=val,...|-> <hex-src> : the frame is ended by a call that carries no input, into a destination with exactly k spare
+             * bytes (k = 0..12) after what a flush produced: (s) compressStream2 with ZSTD_c_stableOutBuffer, (b) buffer-less
+             * ZSTD_compressBegin_advanced / Continue / End. Destinations are exact-size heap blocks. Prints s:<k>=<ok n|err>.. b:..; OVER = wrote or reported past capacity */
+            char* ps = strtok(NULL, " "); size_t n; unsigned char* in = zv_unhex(strtok(NULL, " "), &n); int mode, k; char pcopy[512]; int level = 3, cks = 0, wlog = 0;
+            size_t big = ZSTD_compressBound(n) + 64;
+            for (mode = 0; mode < 2; mode++) {
+                size_t F = 0; printf("%s", mode ? " b:" : "s:");
+                for (k = -1; k <= 12; k++) {
+                    size_t cap = k < 0 ? big : F + (size_t)k, r = 0, pos = 0; unsigned char* dst = (unsigned char*)malloc(cap ? cap : 1); char* save = NULL; char* kv; int over = 0;
+                    ZSTD_CCtx_reset(cctx, ZSTD_reset_session_and_parameters);
+                    strncpy(pcopy, ps, sizeof pcopy - 1); pcopy[sizeof pcopy - 1] = 0;
+                    for (kv = strtok_r(pcopy, ",", &save); kv && !ZSTD_isError(r); kv = strtok_r(NULL, ",", &save)) { int id, val; if (sscanf(kv, "%d=%d", &id, &val) == 2) { if (id == 100) level = val; if (id == 201) cks = val; if (id == 101) wlog = val; r = ZSTD_CCtx_setParameter(cctx, (ZSTD_cParameter)id, val); } }
+                    if (mode == 0) {
+                        ZSTD_inBuffer ib = { in, n, 0 }; ZSTD_outBuffer ob = { dst, cap, 0 };
+                        if (!ZSTD_isError(r)) r = ZSTD_CCtx_setParameter(cctx, ZSTD_c_stableOutBuffer, 1);
+                        if (!ZSTD_isError(r)) r = ZSTD_compressStream2(cctx, &ob, &ib, ZSTD_e_flush);
+                        if (!ZSTD_isError(r) && (r != 0 || ib.pos != ib.size)) r = (size_t)-ZSTD_error_dstSize_tooSmall;
+                        if (k < 0) F = ob.pos;
+                        if (!ZSTD_isError(r)) { ib.src = in + n; ib.size = 0; ib.pos = 0; r = ZSTD_compressStream2(cctx, &ob, &ib, ZSTD_e_end); if (!ZSTD_isError(r) && r != 0) r = (size_t)-ZSTD_error_dstSize_tooSmall; }
+                        pos = ob.pos; if (ob.pos > ob.size) over = 1;
+                    } else {
+                        ZSTD_parameters prm = ZSTD_getParams(level, n, 0); size_t c1;
+                        prm.fParams.checksumFlag = cks; prm.fParams.contentSizeFlag = 0; if (wlog) prm.cParams.windowLog = (unsigned)wlog;
+                        r = ZSTD_compressBegin_advanced(cctx, NULL, 0, prm, ZSTD_CONTENTSIZE_UNKNOWN);
+                        if (!ZSTD_isError(r)) { c1 = ZSTD_compressContinue(cctx, dst, cap, in, n); r = c1; if (!ZSTD_isError(c1)) { pos = c1; if (k < 0) F = c1; } }
+                        if (!ZSTD_isError(r)) { r = ZSTD_compressEnd(cctx, dst + pos, cap - pos, NULL, 0); if (!ZSTD_isError(r)) { if (r > cap - pos) over = 1; pos += r; } }
+                    }
+                    if (k >= 0) { if (ZSTD_isError(r)) printf("%d=err%s ", k, over ? "-OVER" : ""); else printf("%d=ok%zu%s ", k, pos, (over || pos > cap) ? "-OVER" : ""); }
+                    free(dst);
+                    if (k < 0 && ZSTD_isError(r)) { printf("setup-err "); break; }
+                }
+            }
+            putchar('\n'); free(in);
         } else if (!strcmp(op, "ccap")) {
             /* ccap <id=val,...|-> <cap> <hex-src> : ZSTD_compress2 into an exact-size heap buffer of <cap> bytes (ASan redzone right behind it) plus canary check */
             char* ps = strtok(NULL, " "); size_t cap = (size_t)strtoull(strtok(NULL, " "), NULL, 10), n; unsigned char* in = zv_unhex(strtok(NULL, " "), &n);
